@@ -281,6 +281,20 @@ impl TCheck for C13 {
             let len = rng.range(70_000, 200_000) as usize;
             contents[last].bytes = Arc::new(gen::gen_bytes(&mut rng, last, len, gen::Flavor::Text));
         }
+        // one work in twenty has a content of several MiB (slices and reads above 1 MiB that are
+        // not a multiple of it), stored raw or compressed
+        let huge = work % 20 == 19;
+        if huge {
+            contents.truncate(2);
+            let len = rng.range(2_200_000, 3_500_000) as usize;
+            let idx = contents.len();
+            contents.push(gen::ContentSpec {
+                bytes: Arc::new(gen::gen_bytes(&mut rng, idx, len, gen::Flavor::Text)),
+                hint: if work % 40 == 19 { gen::Hint::No } else { gen::Hint::Yes },
+                src: SrcKind::Cursor,
+                pack: 1,
+            });
+        }
         for c in contents.iter_mut() {
             c.pack = 1;
         }
@@ -310,7 +324,7 @@ impl TCheck for C13 {
         let image = build_image(&hooks, logical.clone(), &dir, &create_knobs, simcore::prng::hash_label(seed, "c13-img", work));
         let pack_path = dir.join("img.c1.jbkc");
         let pack_bytes = Arc::new(std::fs::read(&pack_path).unwrap_or_else(|e| simcore::harness_error(&format!("C13: {e}"))));
-        let chunk = if big { 4096 } else { *rng.pick(&[1u64, 7, 64]) };
+        let chunk = if huge { 65536 } else if big { 4096 } else { *rng.pick(&[1u64, 7, 64]) };
         let knobs = vec![
             ("decode_chunk", chunk),
             ("cluster_cache", *rng.pick(&[2u64, 40])),
@@ -335,8 +349,12 @@ impl TCheck for C13 {
                     .collect()
             })
             .collect();
-        let desc = json!({"image": gen::describe(&logical), "backing": (["memory", "file", "mmap"][backing as usize]),
+        let desc = json!({"several_MiB_content": huge, "image": gen::describe(&logical), "backing": (["memory", "file", "mmap"][backing as usize]),
                           "readers": readers, "programs": programs, "decode_chunk": chunk});
+        let mut programs = programs;
+        if huge {
+            programs[0][0].0 = model.contents.len() - 1;
+        }
         let programs = Arc::new(programs);
         Prepared {
             desc,
